@@ -2348,6 +2348,12 @@ class TupleParser:
         if val is None:
             return None
 
+        if not isinstance(val, str):
+            raise CIMXMLParseError(
+                _format("Embedded object value must be a string, but is of "
+                        "type {0}: {1!A}", type(val).__name__, val),
+                conn_id=self.conn_id)
+
         # Perform the un-embedding (may raise XMLParseError)
         tup_tree = xml_to_tupletree_sax(val, "embedded object", self.conn_id)
 
